@@ -78,6 +78,11 @@ for _n in ("bw_find", "bw_overlapping", "bw_overlapping_full", "bw_no_suffix", "
                "haystack <= 2 bytes (char-wise: <= 2 arbitrary chars); every next() call up to the final None; "
                "source with arbitrary valid size_hint lower bound",
         functions=(_IF_BW if _n.startswith("bw") else _IF_CW) + ["find_iter_from_iter", "find_overlapping_iter_from_iter", "find_overlapping_no_suffix_iter_from_iter"])
+for _n in ("bw_owned_find", "bw_owned_overlapping", "bw_owned_no_suffix"):
+    reg("s_lazy::" + _n, unwind=6, family="S", states=2, transitions=4, mem_gb=8, timeout_s=(900, 1800), cost=1 * 10 ** 6,
+        bounds="all 2-slot tables under Inv (1 output record); an owned [u8; 2] haystack passed BY VALUE to the slice entry point "
+               "from a callee that returns the iterator; every next() call up to the final None, against the byte-iterator entry point",
+        functions=_IF_BW + ["find_iter", "find_overlapping_iter", "find_overlapping_no_suffix_iter", "U8SliceIterator::new"])
 U_VAL_NAMES = ['bw_u8', 'bw_u16', 'bw_u32', 'bw_u64', 'bw_u128', 'bw_i8', 'bw_i16', 'bw_i32', 'bw_i64', 'bw_i128', 'bw_usize', 'bw_isize', 'bw_empty', 'bw_u8_find', 'bw_u8_nosuf', 'bw_u8_lm', 'bw_u8_lf', 'bw_u128_find', 'bw_u128_nosuf', 'bw_u128_lm', 'bw_u128_lf', 'bw_empty_find', 'bw_empty_nosuf', 'bw_empty_lm', 'bw_empty_lf', 'cw_u8', 'cw_u16', 'cw_u32', 'cw_u64', 'cw_u128', 'cw_i8', 'cw_i16', 'cw_i32', 'cw_i64', 'cw_i128', 'cw_usize', 'cw_isize', 'cw_empty', 'cw_u8_find', 'cw_u8_nosuf', 'cw_u8_lm', 'cw_u8_lf', 'cw_u128_find', 'cw_u128_nosuf', 'cw_u128_lm', 'cw_u128_lf', 'cw_empty_find', 'cw_empty_nosuf', 'cw_empty_lm', 'cw_empty_lf']
 for _n in U_VAL_NAMES:
     reg("u_val::" + _n, unwind=5, family="U", states=2, transitions=2 ** 16, timeout_s=(900, 1800),
